@@ -20,7 +20,7 @@ import (
 
 // h2cGet sends one GET as HTTP/2 over clear text with prior knowledge (the vhost HTTP port of frps wraps its
 // handler with h2c) from the simulated address ip. hdrs are sent verbatim (lower-cased by HTTP/2).
-func h2cGet(ip, addr, host, target string, hdrs [][2]string, wait time.Duration) (status int, servedBy string, err error) {
+func h2cGet(ip, addr, method, host, target string, hdrs [][2]string, wait time.Duration) (status int, servedBy string, err error) {
 	tr := &http2.Transport{
 		AllowHTTP: true,
 		DialTLSContext: func(ctx context.Context, network, a string, _ *tls.Config) (net.Conn, error) {
@@ -28,7 +28,7 @@ func h2cGet(ip, addr, host, target string, hdrs [][2]string, wait time.Duration)
 		},
 	}
 	defer tr.CloseIdleConnections()
-	req, err := http.NewRequest("GET", "http://"+addr+target, nil)
+	req, err := http.NewRequest(method, "http://"+addr+target, nil)
 	if err != nil {
 		return 0, "", err
 	}
@@ -67,14 +67,14 @@ type h2Resp struct {
 
 // h2cUpgrade sends the first request (HTTP/1.1 with the upgrade headers) and returns the session and the
 // answer to that first request. err != nil: the server did not switch protocols (resp then holds the status).
-func h2cUpgrade(ip, addr, host, target string, hdrs [][2]string, wait time.Duration) (*h2cUpgradeSession, *h2Resp, error) {
+func h2cUpgrade(ip, addr, method, host, target string, hdrs [][2]string, wait time.Duration) (*h2cUpgradeSession, *h2Resp, error) {
 	c, err := simnet.DialFrom(ip, addr, 10*time.Second)
 	if err != nil {
 		return nil, nil, err
 	}
 	c.SetDeadline(time.Now().Add(wait))
 	var b bytes.Buffer
-	fmt.Fprintf(&b, "GET %s HTTP/1.1\r\nHost: %s\r\nConnection: Upgrade, HTTP2-Settings\r\nUpgrade: h2c\r\nHTTP2-Settings: AAMAAABkAAQAAP__\r\n", target, host)
+	fmt.Fprintf(&b, "%s %s HTTP/1.1\r\nHost: %s\r\nConnection: Upgrade, HTTP2-Settings\r\nUpgrade: h2c\r\nHTTP2-Settings: AAMAAABkAAQAAP__\r\n", method, target, host)
 	for _, h := range hdrs {
 		fmt.Fprintf(&b, "%s: %s\r\n", h[0], h[1])
 	}
@@ -168,10 +168,10 @@ func (s *h2cUpgradeSession) readResponse(stream uint32) (*h2Resp, error) {
 }
 
 // Get sends one more request on the upgraded connection.
-func (s *h2cUpgradeSession) Get(host, path string, hdrs [][2]string, wait time.Duration) (*h2Resp, error) {
+func (s *h2cUpgradeSession) Do(method, host, path string, hdrs [][2]string, wait time.Duration) (*h2Resp, error) {
 	s.conn.SetDeadline(time.Now().Add(wait))
 	s.encBuf.Reset()
-	s.enc.WriteField(hpack.HeaderField{Name: ":method", Value: "GET"})
+	s.enc.WriteField(hpack.HeaderField{Name: ":method", Value: method})
 	s.enc.WriteField(hpack.HeaderField{Name: ":scheme", Value: "http"})
 	s.enc.WriteField(hpack.HeaderField{Name: ":authority", Value: host})
 	s.enc.WriteField(hpack.HeaderField{Name: ":path", Value: path})
